@@ -121,6 +121,7 @@ class Cl:
         self.lazy = False
         self.tun_ip = None
         self.raw = False
+        self.relay_case = gen.rng.choice(["keep", "keep", "keep", "upper", "lower"])     # this client sits behind a relay that folds the case of query names
         self.up = None          # (compressed image, offset) being sent upstream
         self.sent = []          # (op text, meta) of accepted ping/data queries, for re-delivery
 
@@ -163,6 +164,9 @@ class Gen:
 
     def q(self, cl, name, qtype=None, id_=None, src=None, meta=None):
         id_ = self.dnsid() if id_ is None else id_
+        if getattr(cl, "relay_case", "keep") != "keep" and getattr(cl.c, "codec", "b32") == "b32" and not (meta or {}).get("case"):
+            # (only while the client speaks Base32 upstream: a real client behind such a relay never gets a case-sensitive codec negotiated)
+            name = name.upper() if cl.relay_case == "upper" else name.lower()
         m = {"client": cl, "name": name, "id": id_, "qtype": cl.qtype if qtype is None else qtype, "src": src or cl.src}
         if meta:
             m.update(meta)
